@@ -32,6 +32,7 @@ import (
 	"strconv"
 	"strings"
 	"sync"
+	"sync/atomic"
 	"time"
 	"unicode/utf8"
 
@@ -1281,7 +1282,16 @@ type codecCLIResult struct {
 	Stdout []byte
 	Stderr string
 	Err    error // could not run at all / watchdog
+	// Hang is set when the watchdog fired: "blocked" (the command used next to no CPU time: it waits
+	// for something that cannot come) or "spinning" (it burnt CPU all the time); "" if unclear
+	Hang string
 }
+
+// codecCLIWatchdog is the watchdog of the command runs; after the first hang it drops to 15 s so
+// that a command that hangs on every run does not cost two minutes each time.
+var codecCLIWatchdog atomic.Int64
+
+func init() { codecCLIWatchdog.Store(int64(120 * time.Second)) }
 
 // codecRunVegeta runs the real CLI with TZ=UTC and a generous watchdog.
 func codecRunVegeta(bin string, args ...string) codecCLIResult {
@@ -1297,10 +1307,23 @@ func codecRunVegeta(bin string, args ...string) codecCLIResult {
 	var err error
 	select {
 	case err = <-done:
-	case <-time.After(120 * time.Second):
+	case <-time.After(time.Duration(codecCLIWatchdog.Load())):
+		wd := time.Duration(codecCLIWatchdog.Load())
 		_ = cmd.Process.Kill()
 		<-done
-		return codecCLIResult{Err: errors.New("watchdog: vegeta did not finish within 120s")}
+		res := codecCLIResult{Err: fmt.Errorf("watchdog: vegeta did not finish within %v", wd)}
+		if cmd.ProcessState != nil {
+			cpu := cmd.ProcessState.UserTime() + cmd.ProcessState.SystemTime()
+			switch {
+			case cpu < wd/50:
+				res.Hang = "blocked"
+			case cpu > wd/2:
+				res.Hang = "spinning"
+			}
+			res.Err = fmt.Errorf("%v (CPU time used: %v)", res.Err, cpu)
+		}
+		codecCLIWatchdog.Store(int64(15 * time.Second))
+		return res
 	}
 	res := codecCLIResult{Stdout: stdout.Bytes(), Stderr: stderr.String()}
 	if err != nil {
